@@ -1484,3 +1484,281 @@ Proof.
   split; [exact B|]. split; [exact Ew|]. split; [lia|].
   eapply Forall_impl; [|exact Fb]. intros [k b] ((A' & B' & C' & D' & E') & S). cbn [snd] in *. repeat split; lia.
 Qed.
+
+(** * Soundness of what is published (parts of C17_sound_mpd) *)
+
+(** ** fullRange: every number of the returned range has a live counter with count >= nrTracks *)
+Definition range_full (live : list (Z * Z)) (k : Z) (fl : Z * Z) : Prop :=
+  snd fl = 0 \/ forall n, fst fl <= n <= snd fl -> exists c, In (n, c) live /\ k <= c.
+
+Definition fr_inv (live : list (Z * Z)) (k first last lastIdx i : Z) : Prop :=
+  last = 0 \/
+  (first = last - (lastIdx - (i + 1)) /\
+   forall j, i < j <= lastIdx -> exists c, nthZ j live = Some (last - (lastIdx - j), c) /\ k <= c).
+
+Lemma fr_inv_good live k first last lastIdx i :
+  fr_inv live k first last lastIdx i -> range_full live k (first, last).
+Proof.
+  intros [H|[Hf Hj]]; [left; exact H|]. right. cbn [fst snd]. intros n Hn.
+  destruct (Hj (lastIdx - (last - n)) ltac:(lia)) as (c & Hc & Hk).
+  exists c. split; [|exact Hk]. apply nthZ_In in Hc. replace (last - (lastIdx - (lastIdx - (last - n)))) with n in Hc by lia. exact Hc.
+Qed.
+
+Lemma fullRange_loop_sound sl n live k : forall fuel first last lastIdx,
+  Rep sl n live -> Z.of_nat fuel <= n ->
+  fr_inv live k first last lastIdx (Z.of_nat fuel - 1) ->
+  exists r, sc_fullRange_loop sl k first last lastIdx (Z.of_nat fuel - 1) fuel = Ok r /\ range_full live k r.
+Proof.
+  induction fuel as [|fuel IH]; intros first last lastIdx R Hf Inv.
+  - cbn. eexists; split; [reflexivity|]. eapply fr_inv_good; eauto.
+  - cbn [sc_fullRange_loop]. pose proof R as (R1 & _).
+    set (i := Z.of_nat (S fuel) - 1) in *.
+    destruct (nthZ_some live i ltac:(lia)) as (x & Hx).
+    rewrite (rep_get _ _ _ _ _ _ R Hx) by lia. cbn [bind].
+    replace (i - 1) with (Z.of_nat fuel - 1) by lia.
+    destruct (snd x <? k) eqn:Ek.
+    + destruct (last =? 0) eqn:El.
+      * apply IH; [exact R|lia|]. left. lia.
+      * eexists; split; [reflexivity|]. eapply fr_inv_good; eauto.
+    + destruct (last =? 0) eqn:El.
+      * (* first full counter found *)
+        replace (fst x =? fst x - (i - i)) with true by lia. cbn [negb].
+        apply IH; [exact R|lia|]. destruct (Z.eq_dec (fst x) 0) as [E0|E0]; [left; exact E0|]. right.
+        split; [lia|]. intros j Hj. assert (j = i) by lia. subst j.
+        exists (snd x). split; [|lia]. rewrite Hx. destruct x; cbn [fst snd]. f_equal. f_equal. lia.
+      * destruct Inv as [Inv|[Hfirst Hj]]; [lia|].
+        destruct (negb (fst x =? last - (lastIdx - i))) eqn:Ec.
+        -- eexists; split; [reflexivity|]. eapply fr_inv_good. right. split; [exact Hfirst|exact Hj].
+        -- apply IH; [exact R|lia|]. right. split; [lia|]. intros j Hjr.
+           destruct (Z.eq_dec j i) as [->|Nj]; [|apply Hj; lia].
+           exists (snd x). split; [|lia]. rewrite Hx. destruct x; cbn [fst snd] in *. f_equal. f_equal. lia.
+Qed.
+
+Lemma sc_fullRange_sound s k :
+  sc_inv s -> exists r, sc_fullRange s k = Ok r /\ range_full (sc_live s) k r.
+Proof.
+  intros I. pose proof (sc_rep s I) as R. pose proof I as (Hw & Hn & Hl & Hc & Hi).
+  unfold sc_fullRange. destruct (sc_n s =? 0) eqn:E.
+  - eexists; split; [reflexivity|]. left. reflexivity.
+  - rewrite u32_small by lia.
+    destruct (fullRange_loop_sound _ _ _ k (Z.to_nat (sc_n s - 1 + 1)) 0 0 0 R ltac:(lia) ltac:(left; reflexivity)) as (r & Hr & G).
+    replace (Z.of_nat (Z.to_nat (sc_n s - 1 + 1)) - 1) with (sc_n s - 1) in Hr by lia. eauto.
+Qed.
+
+(** ** modifySegmentTemplate: the S elements written for an adaptation set are the stored items of its
+    first representation, one per number of the range, in order *)
+Definition durs_of (tl : list selem) : list Z :=
+  flat_map (fun s => repeat (snd (fst s)) (Z.to_nat (snd s + 1))) tl.
+
+Definition tl_out (cur : option selem) (done : list selem) : list selem :=
+  done ++ match cur with Some s => [s] | None => [] end.
+
+(** only the first S element carries @t, the others continue at the previous end *)
+Definition tl_shape (t0 : Z) (tl : list selem) : Prop :=
+  match tl with
+  | [] => True
+  | s :: rest => fst (fst s) = t0 /\ Forall (fun s' => fst (fst s') = -1) rest
+  end.
+
+Definition items_at (b : sdb) (seqNr : Z) (items : list item) : Prop :=
+  forall k it, nthZ k items = Some it -> In it (sdb_live b) /\ i_seq it = seqNr + k.
+
+Lemma durs_of_app a b : durs_of (a ++ b) = durs_of a ++ durs_of b.
+Proof. unfold durs_of. apply flat_map_app. Qed.
+
+Lemma repeat_snoc {A} (x : A) n : repeat x (S n) = repeat x n ++ [x].
+Proof. induction n as [|n IH]; [reflexivity|]. cbn [repeat app] in *. f_equal. exact IH. Qed.
+
+Lemma nthZ_snoc_inv {A} (l : list A) x k y :
+  nthZ k (l ++ [x]) = Some y -> (nthZ k l = Some y /\ 0 <= k < lenZ l) \/ (k = lenZ l /\ y = x).
+Proof.
+  intros H. pose proof (lenZ_nonneg l).
+  destruct (Z_lt_dec k 0) as [Hn|Hn].
+  { exfalso. clear - H Hn. destruct (l ++ [x]); cbn in H; [discriminate|]. destruct (k <? 0) eqn:E; [discriminate|lia]. }
+  destruct (Z_lt_dec k (lenZ l)) as [Hl|Hl].
+  - left. rewrite nthZ_app_l in H by lia. split; [exact H|lia].
+  - right. rewrite nthZ_app_r in H by lia. cbn [nthZ] in H.
+    destruct (k - lenZ l <? 0) eqn:E1; [discriminate|]. destruct (k - lenZ l =? 0) eqn:E2; [|discriminate].
+    inversion H; subst. split; [lia|reflexivity].
+Qed.
+
+Lemma timeline_loop_sound b : sdb_inv b -> forall n seqNr cur done acc tl,
+  items_at b (seqNr - lenZ acc) acc ->
+  (acc = [] -> cur = None /\ done = []) ->
+  (acc <> [] -> exists t d r, cur = Some (t, d, r) /\ 0 <= r) ->
+  Forall (fun s => 0 <= snd s) (tl_out cur done) ->
+  durs_of (tl_out cur done) = map i_dur acc ->
+  (forall it rest, acc = it :: rest -> tl_shape (i_dts it) (tl_out cur done)) ->
+  timeline_loop b seqNr n cur done = Ok (Some tl) ->
+  exists items, lenZ items = lenZ acc + Z.of_nat n /\ items_at b (seqNr - lenZ acc) items /\
+                durs_of tl = map i_dur items /\
+                (forall it rest, items = it :: rest -> tl_shape (i_dts it) tl) /\
+                Forall (fun s => 0 <= snd s) tl.
+Proof.
+  intros I. induction n as [|n IH]; intros seqNr cur done acc tl Hat Hnil Hcur Hr0 Hd Hs Hrun.
+  - cbn in Hrun. inversion Hrun; subst. exists acc. split; [lia|]. split; [exact Hat|]. split; [exact Hd|split; [exact Hs|exact Hr0]].
+  - cbn [timeline_loop] in Hrun. destruct (sdb_getItem_ok b seqNr I) as (oi & Ho & Hoi). rewrite Ho in Hrun. cbn [bind] in Hrun.
+    destruct oi as [sd|]; [|discriminate]. destruct Hoi as [Hin Hseq].
+    pose proof (lenZ_nonneg acc).
+    assert (Hat' : items_at b (seqNr + 1 - lenZ (acc ++ [sd])) (acc ++ [sd])).
+    { rewrite lenZ_app, lenZ_cons, lenZ_nil. replace (seqNr + 1 - (lenZ acc + (1 + 0))) with (seqNr - lenZ acc) by lia.
+      intros k it Hk. apply nthZ_snoc_inv in Hk as [[Hk _]|[-> ->]]; [apply Hat; exact Hk|]. split; [exact Hin|lia]. }
+    assert (Hne : acc ++ [sd] <> []) by (destruct acc; discriminate).
+    destruct cur as [[[t d] r]|].
+    + destruct (Hcur ltac:(intros ->; destruct (Hnil eq_refl); discriminate)) as (t' & d' & r' & Ec & Hr). inversion Ec; subst t' d' r'.
+      destruct (i_dur sd =? d) eqn:Ed.
+      * (* same duration: r++ *)
+        destruct (IH (seqNr + 1) (Some (t, d, r + 1)) done (acc ++ [sd]) tl Hat'
+                    ltac:(intros E; destruct acc; discriminate)
+                    ltac:(intros _; exists t, d, (r + 1); split; [reflexivity|lia])) as (items & Hl & Hi & Hdur & Hsh & Hr0'); [| | |exact Hrun|].
+        -- unfold tl_out in *. apply Forall_app in Hr0 as [F1 F2]. apply Forall_app. split; [exact F1|].
+           constructor; [cbn; lia|constructor].
+        -- unfold tl_out in *. rewrite durs_of_app in *. cbn [durs_of flat_map fst snd] in *. rewrite app_nil_r in *.
+           rewrite map_app. cbn [map]. replace (Z.to_nat (r + 1 + 1)) with (S (Z.to_nat (r + 1))) by lia.
+           rewrite repeat_snoc, app_assoc, Hd. f_equal. f_equal. lia.
+        -- intros it rest E. destruct acc as [|a acc']; [destruct (Hnil eq_refl); discriminate|].
+           cbn [app] in E. inversion E; subst it rest. specialize (Hs a acc' eq_refl).
+           unfold tl_out, tl_shape in *. destruct done as [|s0 done']; cbn [app] in *; [exact Hs|].
+           destruct Hs as [Hs1 Hs2]. split; [exact Hs1|]. apply Forall_app in Hs2 as [F1 F2]. apply Forall_app. split; [exact F1|].
+           inversion F2; subst. constructor; [exact H2|constructor].
+        -- exists items. rewrite lenZ_app, lenZ_cons, lenZ_nil in Hl.
+           rewrite lenZ_app, lenZ_cons, lenZ_nil in Hi. replace (seqNr + 1 - (lenZ acc + (1 + 0))) with (seqNr - lenZ acc) in Hi by lia.
+           split; [lia|]. split; [exact Hi|]. split; [exact Hdur|split; [exact Hsh|exact Hr0']].
+      * (* new S element without @t *)
+        destruct (IH (seqNr + 1) (Some (-1, i_dur sd, 0)) (done ++ [(t, d, r)]) (acc ++ [sd]) tl Hat'
+                    ltac:(intros E; destruct acc; discriminate)
+                    ltac:(intros _; exists (-1), (i_dur sd), 0; split; [reflexivity|lia])) as (items & Hl & Hi & Hdur & Hsh & Hr0'); [| | |exact Hrun|].
+        -- unfold tl_out in *. apply Forall_app. split; [exact Hr0|]. constructor; [cbn; lia|constructor].
+        -- unfold tl_out in *. rewrite durs_of_app in *. cbn [durs_of flat_map fst snd] in *. rewrite app_nil_r in *.
+           rewrite map_app. cbn [map]. rewrite <- Hd.
+           rewrite durs_of_app. cbn [durs_of flat_map fst snd]. rewrite app_nil_r. reflexivity.
+        -- intros it rest E. destruct acc as [|a acc']; [destruct (Hnil eq_refl); discriminate|].
+           cbn [app] in E. inversion E; subst it rest. specialize (Hs a acc' eq_refl).
+           unfold tl_out, tl_shape in *. destruct done as [|s0 done']; cbn [app] in *.
+           ++ destruct Hs as [Hs1 _]. split; [exact Hs1|]. constructor; [reflexivity|constructor].
+           ++ destruct Hs as [Hs1 Hs2]. split; [exact Hs1|]. rewrite <- app_assoc. cbn [app].
+              apply Forall_app in Hs2 as [F1 F2]. apply Forall_app. split; [exact F1|].
+              inversion F2; subst. constructor; [exact H2|]. constructor; [reflexivity|constructor].
+        -- exists items. rewrite lenZ_app, lenZ_cons, lenZ_nil in Hl.
+           rewrite lenZ_app, lenZ_cons, lenZ_nil in Hi. replace (seqNr + 1 - (lenZ acc + (1 + 0))) with (seqNr - lenZ acc) in Hi by lia.
+           split; [lia|]. split; [exact Hi|]. split; [exact Hdur|split; [exact Hsh|exact Hr0']].
+    + (* first item *)
+      assert (acc = []) as -> by (destruct acc as [|a acc']; [reflexivity|]; destruct (Hcur ltac:(discriminate)) as (? & ? & ? & E & _); discriminate).
+      destruct (Hnil eq_refl) as [_ ->].
+      destruct (IH (seqNr + 1) (Some (i_dts sd, i_dur sd, 0)) [] ([] ++ [sd]) tl Hat'
+                  ltac:(discriminate)
+                  ltac:(intros _; exists (i_dts sd), (i_dur sd), 0; split; [reflexivity|lia])) as (items & Hl & Hi & Hdur & Hsh & Hr0'); [| | |exact Hrun|].
+      * unfold tl_out. cbn [app]. constructor; [cbn; lia|constructor].
+      * reflexivity.
+      * intros it rest E. cbn [app] in E. inversion E; subst. unfold tl_out, tl_shape. cbn. split; [reflexivity|constructor].
+      * exists items. cbn [app lenZ length] in *. change (lenZ (@nil item)) with 0 in *.
+        replace (seqNr + 1 - lenZ [sd]) with (seqNr - 0) in Hi by (cbn; lia).
+        split; [change (lenZ [sd]) with 1 in Hl; lia|]. split; [exact Hi|]. split; [exact Hdur|split; [exact Hsh|exact Hr0']].
+Qed.
+
+(** start times implied by a first start and the durations *)
+Fixpoint starts (t : Z) (ds : list Z) : list (Z * Z) :=
+  match ds with [] => [] | d :: r => (t, d) :: starts (t + d) r end.
+
+Fixpoint sumZ (l : list Z) : Z := match l with [] => 0 | x :: r => x + sumZ r end.
+
+Lemma starts_app t a b : starts t (a ++ b) = starts t a ++ starts (t + sumZ a) b.
+Proof.
+  revert t; induction a as [|x a IH]; intros t; cbn [app starts sumZ]; [f_equal; lia|].
+  f_equal. rewrite IH. f_equal. f_equal. lia.
+Qed.
+
+Lemma expand_s_starts t d n : expand_s t d n = starts t (repeat d n).
+Proof. revert t; induction n as [|n IH]; intros t; cbn; [reflexivity|]. f_equal. apply IH. Qed.
+
+Lemma sumZ_repeat d n : sumZ (repeat d n) = d * Z.of_nat n.
+Proof. induction n as [|n IH]; [cbn; lia|]. cbn [repeat sumZ]. rewrite IH. lia. Qed.
+
+Lemma expand_cont tl : forall tc,
+  Forall (fun s => fst (fst s) = -1) tl -> Forall (fun s => 0 <= snd s) tl ->
+  expand tl tc = starts tc (durs_of tl).
+Proof.
+  induction tl as [|[[t d] r] tl IH]; intros tc F1 F2; [reflexivity|].
+  inversion F1; subst. inversion F2; subst. cbn [fst snd] in *. subst t.
+  cbn [expand durs_of flat_map fst snd]. rewrite Z.eqb_refl.
+  rewrite expand_s_starts, starts_app. f_equal.
+  rewrite IH by assumption. fold (durs_of tl). f_equal. rewrite sumZ_repeat. lia.
+Qed.
+
+Lemma expand_shape t0 tl tc :
+  t0 <> -1 -> tl_shape t0 tl -> Forall (fun s => 0 <= snd s) tl -> expand tl tc = starts t0 (durs_of tl).
+Proof.
+  intros Ht Hs F. destruct tl as [|[[t d] r] tl]; [reflexivity|].
+  destruct Hs as [H1 H2]. cbn [fst snd] in H1. subst t. inversion F; subst. cbn [snd] in *.
+  cbn [expand durs_of flat_map fst snd]. replace (t0 =? -1) with false by lia.
+  rewrite expand_s_starts, starts_app. f_equal.
+  rewrite (expand_cont tl _ H2 H3). fold (durs_of tl). f_equal. rewrite sumZ_repeat. lia.
+Qed.
+
+(** what one adaptation set's timeline says about the buffer of its first representation *)
+Definition aset_sound (g : gen) (first last : Z) (reps : list Z) (tl : list selem) : Prop :=
+  exists rep b items,
+    hd_error reps = Some rep /\ lookup rep (g_bufs g) = Some b /\
+    lenZ items = Z.of_nat (Z.to_nat (last - first + 1)) /\ items_at b first items /\
+    map snd (expand tl 0) = map i_dur items /\
+    (forall it rest, items = it :: rest -> 0 <= i_dts it ->
+       expand tl 0 = starts (i_dts it) (map i_dur items)).
+
+Lemma map_snd_starts t ds : map snd (starts t ds) = ds.
+Proof. revert t; induction ds as [|d r IH]; intros t; cbn; [reflexivity|]. f_equal. apply IH. Qed.
+
+Lemma timelines_sound g first last : gen_inv g -> forall asets tls,
+  timelines g first last asets = Ok (Some tls) -> Forall2 (aset_sound g first last) asets tls.
+Proof.
+  intros I. pose proof I as (Ic & Ew & Hw & Fb & Hl).
+  induction asets as [|reps rest IH]; intros tls H.
+  - cbn in H. inversion H; subst. constructor.
+  - cbn [timelines] in H. destruct reps as [|rep reps]; [discriminate|].
+    destruct (lookup rep (g_bufs g)) as [b|] eqn:E; [|discriminate].
+    destruct (lookup_Forall _ _ _ _ Fb E) as (k & Ib & _). cbn [snd] in Ib.
+    destruct (timeline_loop_ok b Ib (Z.to_nat (last - first + 1)) first None []) as (otl & Ht). rewrite Ht in H. cbn [bind] in H.
+    destruct otl as [tl|]; [|discriminate].
+    destruct (timelines g first last rest) as [[tlr|]| |] eqn:Er; cbn [bind] in H; try discriminate.
+    inversion H; subst tls. constructor; [|apply IH; reflexivity].
+    destruct (timeline_loop_sound b Ib (Z.to_nat (last - first + 1)) first None [] [] tl) as (items & Hlen & Hat & Hdur & Hsh & Hr0); try exact Ht.
+    + intros k0 it Hk. destruct k0; discriminate.
+    + auto.
+    + intros Hne; congruence.
+    + constructor.
+    + reflexivity.
+    + intros it rest0 E0; discriminate.
+    + change (lenZ (@nil item)) with 0 in *. rewrite Z.sub_0_r in Hat.
+      exists rep, b, items. split; [reflexivity|]. split; [exact E|]. split; [lia|]. split; [exact Hat|].
+      destruct items as [|it0 its].
+      * split; [|intros ? ? Hx; discriminate]. destruct tl as [|s tl']; [reflexivity|].
+        exfalso. cbn [map] in Hdur. unfold durs_of in Hdur. cbn [flat_map] in Hdur. inversion Hr0; subst.
+        replace (Z.to_nat (snd s + 1)) with (S (Z.to_nat (snd s))) in Hdur by lia. cbn in Hdur. discriminate.
+      * split.
+        -- destruct (Z.eq_dec (i_dts it0) (-1)) as [Em|Nm].
+           ++ (* a start time of -1 cannot occur for uint64 times; durations do not depend on it *)
+              specialize (Hsh it0 its eq_refl). destruct tl as [|[[t d] r] tl']; [cbn in Hdur; discriminate|].
+              destruct Hsh as [_ Hrest]. inversion Hr0; subst. cbn [snd] in *.
+              cbn [expand fst snd]. rewrite map_app, expand_s_starts, map_snd_starts.
+              rewrite (expand_cont tl' _ Hrest H3), map_snd_starts. exact Hdur.
+           ++ rewrite (expand_shape _ _ 0 Nm (Hsh it0 its eq_refl) Hr0), map_snd_starts. exact Hdur.
+        -- intros it rest0 Ei Hpos. inversion Ei; subst it rest0.
+           rewrite (expand_shape (i_dts it0) tl 0 ltac:(lia) (Hsh it0 its eq_refl) Hr0). rewrite Hdur. reflexivity.
+Qed.
+
+(** generate: the published range consists of numbers whose counter is complete, and every adaptation
+    set's timeline describes stored items of its first representation, one per number, with their
+    durations, starting at the first item's time (and at every item's time when the items follow
+    each other without a gap in time) *)
+Lemma gen_generate_sound g nl asets g' pub :
+  gen_inv g -> gen_generate g nl asets = Ok (g', Some pub) ->
+  (forall n, p_first pub <= n <= p_last pub -> exists c, In (n, c) (sc_live (g_cnt g)) /\ g_ntracks g <= c) /\
+  Forall2 (aset_sound g (p_first pub) (p_last pub)) asets (p_tl pub).
+Proof.
+  intros I H. pose proof I as (Ic & _). unfold gen_generate in H.
+  destruct (sc_fullRange_sound (g_cnt g) (g_ntracks g) Ic) as ([first last] & Hf & Hr). rewrite Hf in H. cbn [bind] in H.
+  destruct (nl <=? g_latest g) eqn:E1; [discriminate|]. destruct (last <? nl) eqn:E2; [discriminate|].
+  destruct (timelines g first last asets) as [[tls|]| |] eqn:Et; cbn [bind] in H; try discriminate.
+  inversion H; subst. cbn [p_first p_last p_tl]. split.
+  - destruct Hr as [Hz|Hr]; [|exact Hr]. cbn [snd] in Hz. destruct I as (_ & _ & _ & _ & Hl). lia.
+  - apply timelines_sound; assumption.
+Qed.
